@@ -29,6 +29,7 @@
  *       X      read error (ECONNRESET) on the connection of the last transmission
  *       o<n>   the next n socket opens fail        w<n>  the next n sends fail (ECONNREFUSED)
  *       S<n>   replace the server list by n servers
+ *       V<n>   replace the server list by the single server number n (flapping between disjoint lists)
  * Output per case: "<k> <line>" (see print sites); never pointers, fds or wall-clock values.
  */
 #include "ares_private.h"
@@ -612,6 +613,16 @@ static void case_retry(char *args)
     } else if (a[0] == 'w') {
       send_fail = (int)num(a + 1);
       OUT("E sendfail %d", send_fail);
+    } else if (a[0] == 'V') {
+      /* replace the whole server list by the single server 10.0.0.<n> (a list disjoint from the
+         previous one unless n is unchanged): the server the query waits on is removed */
+      char one[64];
+      int  n = (int)num(a + 1);
+      if (n < 1) n = 1;
+      if (n > 200) n = 200;
+      snprintf(one, sizeof(one), "10.0.0.%d:53", n - 1 + nservers_addr_base);
+      OUT("E onlyserver %d", n - 1);
+      ares_set_servers_ports_csv(ch, one);
     } else if (a[0] == 'S') {
       char csv[4096];
       int  n = (int)num(a + 1);
